@@ -2,6 +2,8 @@
 # usage: tryseed.sh <patch.diff> <Cxx>...   applies a seeded change to /repo, runs the checks, reverts.
 patch="$1"; shift
 cd /repo || exit 2
+# every seeded tree compiles its changed packages into the checker's private build cache: trim it before it fills the disk
+sz=$(du -s /root/.cache/go-build-verif 2>/dev/null | cut -f1); [ "${sz:-0}" -gt 40000000 ] && rm -rf /root/.cache/go-build-verif/*
 if [ -n "$(git status --porcelain)" ]; then echo "/repo not clean"; exit 2; fi
 git apply "$patch" || { echo "patch does not apply"; exit 2; }
 # evidence of a seeded tree goes to a scratch directory, never to /verif/evidence
